@@ -56,6 +56,13 @@ func main() {
 			_ = pprof.StartCPUProfile(f)
 			defer pprof.StopCPUProfile()
 		}
+		BonusBudget = 6 * time.Second
+		if *tier == "thorough" {
+			BonusBudget = 90 * time.Second
+		}
+		if os.Getenv("VERIF_NO_BONUS") != "" {
+			BonusBudget = 0
+		}
 		switch *kind {
 		case "sched":
 			sc := findScenario(*prop, *tier, *name)
